@@ -114,6 +114,9 @@ Definition esc_ascii (b : ascii) : str :=
   else if n =? 0x09 then s2l "\t"
   else s2l "\u00" ++ [hexdigit (n / 16); hexdigit (n mod 16)].
 
+(* what an invalid byte is written as: backslash, u, f, f, f, d *)
+Definition esc_replacement : str := bsl :: s2l "ufffd".
+
 (* the tail of a list (the list itself when it is empty): keeps the recursion below structural *)
 Definition tl1 {A} (l : list A) : list A := match l with [] => l | _ :: t => t end.
 
@@ -130,7 +133,7 @@ Fixpoint enc_body (s : str) : str :=
       let cs := decode_rune s in
       let c := fst cs in
       let size := snd cs in
-      if (c =? rune_error) && (size =? 1)%nat then s2l "\ufffd" ++ enc_body r1
+      if (c =? rune_error) && (size =? 1)%nat then esc_replacement ++ enc_body r1
       else
         let rest := match size with 0%nat | 1%nat => r1 | 2%nat => r2 | 3%nat => r3 | _ => r4 end in
         if (c =? 0x2028) || (c =? 0x2029) then s2l "\u202" ++ [hexdigit (c mod 16)] ++ enc_body rest
